@@ -312,3 +312,256 @@ Qed.
 Lemma escape_roundtrip : forall p,
   unescape (escape p) = strip_one_trailing_nl p /\ no_bare_quote (escape p) = true.
 Proof. intros p. rewrite escape_is_reference. split; [apply unescape_esc_body | apply no_bare_quote_esc_body]. Qed.
+
+(* ---------------------------------------------------------------- depth() and the error flag *)
+Definition is_open (k : call) : bool :=
+  match k with
+  | CStart | CObjectStart | CArrayStart | CBinary (BArray _) | CBinary (BObject _) => true
+  | _ => false
+  end.
+Definition is_close (k : call) : bool :=
+  match k with CEnd | CBinary (BEnd _) => true | _ => false end.
+
+(* the obvious counter: what depth() and the Result must be after each call of a history *)
+Fixpoint depth_log (d : nat) (calls : list call) : list (bool * nat) :=
+  match calls with
+  | [] => []
+  | k :: r =>
+      if is_open k then (false, S d) :: depth_log (S d) r
+      else if is_close k then
+        match d with
+        | O => (true, O) :: depth_log O r
+        | S d' => (false, d') :: depth_log d' r
+        end
+      else (false, d) :: depth_log d r
+  end.
+
+Lemma pre_state_depth : forall w, w_depth (pre_state w) = w_depth w.
+Proof.
+  intros [m d s n x]. unfold pre_state. cbn [w_state w_nlt w_mixed].
+  destruct s; try reflexivity; destruct n; try reflexivity; destruct (mmode_eqb x MKeyed); reflexivity.
+Qed.
+Lemma epi_state_depth : forall w, w_depth (epi_state w) = w_depth w.
+Proof. intros [m d s n x]. reflexivity. Qed.
+
+Definition dep (w : wr) : nat := length (w_depth w).
+
+Lemma write_end_depth : forall c w,
+  match write_end c w with
+  | WOk w' _ => dep w = S (dep w')
+  | WErr w' o _ => w_depth w = [] /\ w' = w /\ o = []
+  | WCrash _ _ => False
+  end.
+Proof. intros c w. unfold write_end, dep. destruct (w_depth w) eqn:E; cbn; auto. Qed.
+
+(* "returns Ok with depth n" and its composition through `?` *)
+Definition okd (r : wres) (n : nat) : Prop := match r with WOk w' _ => dep w' = n | _ => False end.
+
+Lemma wbind_okd : forall r f n m, okd r n -> (forall w, dep w = n -> okd (f w) m) -> okd (wbind r f) m.
+Proof.
+  intros r f n m Hr Hf. destruct r as [w o|w o e|p s]; cbn [wbind okd] in *; try contradiction.
+  specialize (Hf w Hr). destruct (f w); cbn [okd] in *; auto.
+Qed.
+
+Lemma write_raw_okd : forall c w d, okd (write_raw c w d) (dep w).
+Proof. intros. rewrite write_raw_shape. cbn [okd]. unfold dep. rewrite epi_state_depth, pre_state_depth. reflexivity. Qed.
+Lemma write_quoted_okd : forall c w d, okd (write_quoted c w d) (dep w).
+Proof. intros. rewrite write_quoted_shape. cbn [okd]. unfold dep. rewrite epi_state_depth, pre_state_depth. reflexivity. Qed.
+Lemma write_header_okd : forall c w d, okd (write_header c w d) (dep w).
+Proof. intros. rewrite write_header_shape. cbn [okd]. unfold dep. cbn [set_state w_depth]. rewrite pre_state_depth. reflexivity. Qed.
+Lemma write_start_okd : forall c w, okd (write_start c w) (S (dep w)).
+Proof. intros. rewrite write_start_shape. cbn [okd]. unfold dep, start_state. cbn [w_depth length]. rewrite pre_state_depth. reflexivity. Qed.
+Lemma write_object_start_okd : forall c w, okd (write_object_start c w) (S (dep w)).
+Proof. intros. rewrite write_object_start_shape. cbn [okd]. unfold dep, start_state. cbn [w_depth length]. rewrite pre_state_depth. reflexivity. Qed.
+Lemma write_array_start_okd : forall c w, okd (write_array_start c w) (S (dep w)).
+Proof. intros. rewrite write_array_start_shape. cbn [okd]. unfold dep, start_state. cbn [w_depth length]. rewrite pre_state_depth. reflexivity. Qed.
+Lemma write_end_okd : forall c w n, dep w = S n -> okd (write_end c w) n.
+Proof.
+  intros c w n H. pose proof (write_end_depth c w) as E. destruct (write_end c w); cbn [okd].
+  - lia.
+  - destruct E as [E _]. unfold dep in H. rewrite E in H. discriminate.
+  - exact E.
+Qed.
+Lemma write_operator_okd : forall w o, okd (write_operator w o) (dep w).
+Proof. intros. unfold write_operator. destruct (mmode_eqb _ _); reflexivity. Qed.
+Lemma start_mixed_okd : forall w, okd (start_mixed_mode w) (dep w).
+Proof. reflexivity. Qed.
+
+Lemma write_rgb_okd : forall c w r g b a, okd (write_rgb c w r g b a) (dep w).
+Proof.
+  intros. unfold write_rgb.
+  eapply wbind_okd; [apply write_header_okd|intros w1 H1].
+  eapply wbind_okd; [apply write_array_start_okd|intros w2 H2].
+  eapply wbind_okd; [apply write_raw_okd|intros w3 H3].
+  eapply wbind_okd; [apply write_raw_okd|intros w4 H4].
+  eapply wbind_okd; [apply write_raw_okd|intros w5 H5].
+  eapply wbind_okd; [destruct a; [apply write_raw_okd|reflexivity]|intros w6 H6].
+  apply write_end_okd. lia.
+Qed.
+
+Section DepthQueries.
+  Variable fdisp : bool -> N -> option N -> bytes.
+
+  (* what one call does to depth() and to its Result *)
+  Lemma step_depth : forall c w k,
+    match step fdisp c w k with
+    | WOk w' _ => is_open k = true /\ dep w' = S (dep w)
+                  \/ is_open k = false /\ is_close k = true /\ dep w = S (dep w')
+                  \/ is_open k = false /\ is_close k = false /\ dep w' = dep w
+    | WErr w' _ _ => is_open k = false /\ is_close k = true /\ dep w = O /\ w' = w
+    | WCrash _ _ => False
+    end.
+  Proof.
+    intros c w k.
+    assert (P : forall r, okd r (dep w) -> match r with
+              | WOk w' _ => dep w' = dep w | _ => False end) by (intros r H; destruct r; exact H).
+    assert (Q : forall r, okd r (S (dep w)) -> match r with
+              | WOk w' _ => dep w' = S (dep w) | _ => False end) by (intros r H; destruct r; exact H).
+    destruct k as [s|s|o|s| | | | |b|z|n|n|z|b|b|b p|b p|wd r|r g b a| |s|t]; cbn [step is_open is_close].
+    1,2,4,9-18,20,21: match goal with |- context [match ?r with _ => _ end] =>
+      let H := fresh in assert (H : okd r (dep w)) by auto using write_raw_okd, write_quoted_okd, write_header_okd, start_mixed_okd;
+      apply P in H; destruct r; [right; right; auto | contradiction | contradiction] end.
+    - pose proof (write_operator_okd w o) as H. apply P in H. destruct (write_operator w o); [right; right; auto|contradiction|contradiction].
+    - pose proof (write_start_okd c w) as H. apply Q in H. destruct (write_start c w); [left; auto|contradiction|contradiction].
+    - pose proof (write_object_start_okd c w) as H. apply Q in H. destruct (write_object_start c w); [left; auto|contradiction|contradiction].
+    - pose proof (write_array_start_okd c w) as H. apply Q in H. destruct (write_array_start c w); [left; auto|contradiction|contradiction].
+    - pose proof (write_end_depth c w) as H. destruct (write_end c w) as [w' o|w' o e|]; [right; left; auto| |exact H].
+      destruct H as [H1 [H2 _]]. unfold dep. rewrite H1. auto.
+    - pose proof (write_rgb_okd c w r g b a) as H. apply P in H. destruct (write_rgb c w r g b a); [right; right; auto|contradiction|contradiction].
+    - destruct t as [e|e| | |e|b|n|n|z|z|s|s|b|b|i|r g b a]; cbn [write_binary is_open is_close].
+      3,6-15: match goal with |- context [match ?r with _ => _ end] =>
+        let H := fresh in assert (H : okd r (dep w)) by auto using write_raw_okd, write_quoted_okd, start_mixed_okd;
+        apply P in H; destruct r; [right; right; auto | contradiction | contradiction] end.
+      + pose proof (write_array_start_okd c w) as H. apply Q in H. destruct (write_array_start c w); [left; auto|contradiction|contradiction].
+      + pose proof (write_object_start_okd c w) as H. apply Q in H. destruct (write_object_start c w); [left; auto|contradiction|contradiction].
+      + pose proof (write_operator_okd w Equal) as H. apply P in H. destruct (write_operator w Equal); [right; right; auto|contradiction|contradiction].
+      + pose proof (write_end_depth c w) as H. destruct (write_end c w) as [w' o|w' o e0|]; [right; left; auto| |exact H].
+        destruct H as [H1 [H2 _]]. unfold dep. rewrite H1. auto.
+      + pose proof (write_rgb_okd c w r g b a) as H. apply P in H. destruct (write_rgb c w r g b a); [right; right; auto|contradiction|contradiction].
+  Qed.
+
+  (* C15 state_queries (depth): after EVERY call history, depth() after each call and whether the call
+     returned Err are given by the counter [depth_log] over the call prefix; the only failing call is an
+     end at depth 0, and it leaves the writer unchanged. *)
+  Lemma run_depth_log : forall c calls w out log,
+    run_from fdisp c w calls = Ok (out, log) ->
+    map (fun ew => (fst ew, dep (snd ew))) log = depth_log (dep w) calls.
+  Proof.
+    intros c calls. induction calls as [|k rest IH]; intros w out log H; cbn [run_from] in H.
+    - inversion H; subst. reflexivity.
+    - pose proof (step_depth c w k) as S. cbn [depth_log].
+      destruct (step fdisp c w k) as [w' o|w' o e|p s].
+      + destruct (run_from fdisp c w' rest) as [[o2 l2]| | | |] eqn:R; cbn [obind] in H; try discriminate.
+        inversion H; subst. cbn [map fst snd]. specialize (IH _ _ _ R).
+        destruct S as [[A B]|[[A [B C]]|[A [B C]]]]; rewrite A; try rewrite B.
+        * rewrite IH, B. reflexivity.
+        * rewrite C. rewrite IH. reflexivity.
+        * rewrite IH, C. reflexivity.
+      + destruct (run_from fdisp c w' rest) as [[o2 l2]| | | |] eqn:R; cbn [obind] in H; try discriminate.
+        inversion H; subst. cbn [map fst snd]. specialize (IH _ _ _ R).
+        destruct S as [A [B [C D]]]. subst w'. rewrite A, B, C in *. rewrite IH. reflexivity.
+      + destruct S.
+  Qed.
+End DepthQueries.
+
+(* ---------------------------------------------------------------- write_tape: balanced for every tape *)
+(* Ok with depth n, or a crash outcome (malformed tape / fuel) -- but never an Err *)
+Definition okdc (r : wres) (n : nat) : Prop :=
+  match r with WOk w' _ => dep w' = n | WErr _ _ _ => False | WCrash _ _ => True end.
+
+Lemma okd_okdc : forall r n, okd r n -> okdc r n.
+Proof. intros [w o|w o e|p s] n H; cbn in *; auto. Qed.
+
+Lemma wbind_okdc : forall r f n m, okdc r n -> (forall w, dep w = n -> okdc (f w) m) -> okdc (wbind r f) m.
+Proof.
+  intros r f n m Hr Hf. destruct r as [w o|w o e|p s]; cbn [wbind okdc] in *; try contradiction; auto.
+  specialize (Hf w Hr). destruct (f w); cbn [okdc] in *; auto.
+Qed.
+
+Lemma write_preamble_okd : forall c w, okd (write_preamble c w) (dep w).
+Proof. intros. rewrite write_preamble_shape. cbn [okd]. unfold dep. rewrite pre_state_depth. reflexivity. Qed.
+Lemma write_escaped_quotes_okd : forall c w d, okd (write_escaped_quotes c w d) (dep w).
+Proof. intros. rewrite write_escaped_quotes_shape. cbn [okd]. unfold dep. rewrite epi_state_depth, pre_state_depth. reflexivity. Qed.
+
+Lemma okdc_eq : forall r n m, n = m -> okdc r n -> okdc r m.
+Proof. intros; subst; auto. Qed.
+
+Ltac okdc_prim :=
+  first [ apply okd_okdc; first [ apply write_preamble_okd | apply write_raw_okd | apply write_escaped_quotes_okd
+                                 | apply write_header_okd | apply write_array_start_okd | apply write_object_start_okd
+                                 | apply write_operator_okd | apply start_mixed_okd ] ].
+
+(* For EVERY tape (well formed or not), every job, state, configuration and fuel: the traversal
+   never returns Err, and when it completes depth() is what it was: write_tape closes exactly the
+   containers it opens. *)
+Lemma wt_balanced : forall fuel c t j w, okdc (wt fuel c t j w) (dep w).
+Proof.
+  induction fuel as [|f IH]; intros c t j w; [exact I|].
+  destruct j as [ti ei|vi|ti ei]; cbn [wt].
+  - (* write_object_core *)
+    destruct (ei <=? ti)%nat; [reflexivity|].
+    destruct (tget t ti) as [ktok|]; [|exact I].
+    assert (K : forall (this : wres) nti, okdc this (dep w) ->
+              okdc (wbind this (fun w' => wt f c t (JCore nti ei) w')) (dep w)).
+    { intros this nti H. eapply wbind_okdc; [exact H|]. intros w' E. rewrite <- E. apply IH. }
+    assert (V : forall w1 vi, dep w1 = dep w -> okdc (wt f c t (JValue vi) w1) (dep w)).
+    { intros w1 vi E. rewrite <- E. apply IH. }
+    assert (OPV : forall (op : option operator) w1, dep w1 = dep w ->
+              okdc (match op with Some o => write_operator w1 o | None => emit w1 [] end) (dep w)).
+    { intros [o|] w1 E; [rewrite <- E; okdc_prim | exact E]. }
+    assert (PAR : forall (open x : bytes) vi,
+      okdc (wbind (write_preamble c w) (fun w1 =>
+            wbind (emit w1 (open ++ x ++ PARAM_HEAD_END)) (fun w2 =>
+            wbind (match tget t vi with
+                   | None => WCrash true 10
+                   | Some (TObject e _) => wbind (wt f c t (JCore (S vi) e) w2) (fun a => emit a ([NL] ++ write_indent c a))
+                   | Some (TArray e _) => wbind (wt f c t (JCore e e) w2) (fun a => emit a ([NL] ++ write_indent c a))
+                   | Some _ => wt f c t (JValue vi) w2
+                   end) (fun w3 => emit w3 [RBRACKET])))) (dep w)).
+    { intros open x vi. eapply wbind_okdc; [okdc_prim|]. intros w1 E1.
+      eapply wbind_okdc; [exact E1|]. intros w2 E2.
+      eapply wbind_okdc; [|intros w3 E3; exact E3].
+      destruct (tget t vi) as [tk|]; [|exact I].
+      destruct tk; try (apply V; exact E2);
+        (eapply wbind_okdc; [apply IH|intros a Ea; congruence]). }
+    destruct ktok; cbn [negb]; try (destruct (dbg c); [exact I|reflexivity]); try reflexivity;
+      (destruct (tget t (S ti)) as [nt|]; [|exact I]);
+      match goal with |- context [next_idx f t ?v] => destruct (next_idx f t v) as [nti|e1|s1|s1|] end;
+      try exact I; apply K.
+    + (* unquoted key *)
+      eapply wbind_okdc; [okdc_prim|]. intros w1 E1.
+      eapply wbind_okdc; [apply OPV; exact E1|]. intros w2 E2. apply V. exact E2.
+    + (* quoted key *)
+      eapply wbind_okdc; [okdc_prim|]. intros w1 E1.
+      eapply wbind_okdc; [apply OPV; exact E1|]. intros w2 E2. apply V. exact E2.
+    + apply PAR.
+    + apply PAR.
+  - (* write_value *)
+    destruct (tget t vi) as [tk|]; [|exact I].
+    destruct tk as [e m|e m| |x|x|x|x|o|i|x]; try exact I.
+    + eapply wbind_okdc; [okdc_prim|]. intros w1 E1.
+      eapply wbind_okdc; [apply IH|]. intros w2 E2.
+      apply okd_okdc, write_end_okd. congruence.
+    + eapply wbind_okdc; [okdc_prim|]. intros w1 E1.
+      eapply wbind_okdc; [apply IH|]. intros w2 E2.
+      apply okd_okdc, write_end_okd. congruence.
+    + okdc_prim.
+    + okdc_prim.
+    + okdc_prim.
+    + destruct (mmode_eqb (w_mixed w) MDisabled); reflexivity.
+    + destruct (next_idx f t (S vi)) as [e|e1|s1|s1|]; try exact I.
+      eapply wbind_okdc; [okdc_prim|]. intros w1 E1.
+      destruct (negb (vi <? e)%nat); [exact I|].
+      destruct (next_idx_values t vi) as [ti2|]; [|exact I].
+      destruct (negb (ti2 <? e)%nat); [exact I|].
+      destruct (next_idx_values t ti2); [|exact I].
+      rewrite <- E1. apply IH.
+  - (* the values loop of write_array *)
+    destruct (ti <? ei)%nat; [|reflexivity].
+    destruct (next_idx_values t ti) as [nti|]; [|exact I].
+    eapply wbind_okdc; [apply IH|]. intros w1 E1. rewrite <- E1. apply IH.
+Qed.
+
+(* C14: write_tape never fails with an error and ends at depth 0, for every tape and configuration *)
+Lemma write_tape_balanced : forall fuel c t, okdc (write_tape fuel c t) 0.
+Proof. intros. apply (wt_balanced fuel c t (JCore 0 (length t)) wr_init). Qed.
